@@ -509,7 +509,7 @@ def eval_pool(ctx, pg, cfg, q):
 
 # ----------------------------------------------------------------------------------------------- driver
 # ----------------------------------------------------------------------------------------------- (e) shared argument objects
-def eval_alias(ctx, pg, rng, quick):
+def eval_alias(ctx, pg, rng, quick, item=None):
     """two Coalescents built from the SAME argument objects (LocusConfig, Demography, model, LineageConfig); the second may pass
     another recombination rate / sample / end time. Whatever is done with the second, the statistics of the first are those of
     a Coalescent built from fresh, unshared arguments."""
@@ -563,7 +563,7 @@ def eval_alias(ctx, pg, rng, quick):
         ctx.count('alias:warned'); return
     for name, obs in (('first-object', got), ('third-object', again)):
         if not all(C.close(a, b, REL, ABS) for a, b in zip(obs, want)):
-            ctx.violation(f'alias:{name}:{"two-loci" if two else "one-locus"}', mode='alias', two_loci=two, order=order, names=names,
+            ctx.violation(f'alias:{name}:{"two-loci" if two else "one-locus"}', mode='alias', item=item, two_loci=two, order=order, names=names,
                           n_a=n_a, n_b=n_b, sizes=sizes, mig={str(k): v for k, v in mig.items()}, model=list(model_spec), r_a=r_a, r_b=r_b,
                           n_unlinked=unl, expected=want, observed=obs,
                           oracle='statistics [th.mean, th.var, tbl.mean(, loci cov)] of a Coalescent built from fresh argument objects')
@@ -574,7 +574,7 @@ def one(ctx, item):
     pg = C.import_phasegen()
     mode, i = item
     if mode == 'alias':
-        return eval_alias(ctx, pg, random.Random(f'{ctx.seed}-c17-{item}'), ctx.quick)
+        return eval_alias(ctx, pg, random.Random(f'{ctx.seed}-c17-{item}'), ctx.quick, item=list(item))
     rng = random.Random(f'{ctx.seed}-c17-{item}')
     quick = ctx.quick
     if mode in ('hist', 'hist-off'):
@@ -628,3 +628,7 @@ def replay(ctx, payload):
         eval_shared(ctx, pg, tpl, payload['param_sets'], steps, bool(payload['inference_cache']))
     elif mode == 'pool':
         eval_pool(ctx, pg, conv.cfg_from_json(payload['cfg']), payload['query'])
+    elif mode == 'alias':
+        # the scenario is a deterministic function of (seed, item): regenerate it
+        item = tuple(payload['item'])
+        eval_alias(ctx, pg, random.Random(f"{payload['seed']}-c17-{item}"), payload.get('tier', 'quick') == 'quick', item=list(item))
